@@ -417,8 +417,3 @@ Theorem reads_are_silent :
   fst (step vsame isC ml mi s c) = s.
 Proof. intros vsame isC ml mi s c H. destruct c; try discriminate H; reflexivity. Qed.
 
-Print Assumptions sync_set.
-Print Assumptions sync_del.
-Print Assumptions set_declares_reads.
-Print Assumptions del_declares_reads.
-Print Assumptions reads_are_silent.
